@@ -2,7 +2,7 @@ import Qv.Proofs.PcboNum
 /-!
 # C02: `add_constraint_eq_zero` (all six bounds branches and `_special_constraints_eq_zero`)
 -/
-namespace Qv
+namespace Qv.PcboP
 
 /-- the value at `s` of the terms a call added: `eval` is additive over `St.plus` / `St.minus`
 (see `Struct.added`: the new terms *are* `st.terms += q`) -/
@@ -194,4 +194,4 @@ theorem addEqZero_sem {st : St} {P : Poly} {lam : Rat} {b : Option Rat × Option
         have := int_sq_ge_one hi h0
         nlinarith
 
-end Qv
+end Qv.PcboP
